@@ -256,6 +256,23 @@ Definition session_next (c : conf) (st : state) : option tx * state :=
       else finish c n q t
   end.
 
+(* ---- the proxy's queue for one of its clients -------------------------------- *)
+(* c2/proxy.go proxyClient.pick / proxyClient.next: the smaller copy of Session.pick / next over
+   the same nextPacket.  State: (send queue, peek); s_last is unused and kept 0.  pick is the same
+   function (peek first and the slot is emptied, then the queue, else nil / a keep-alive; channel
+   mode is outside the model); next has no proxy tags, no key-material rule, no abandoned group
+   and no mergeTags (the tags handed to nextPacket are those of the picked packet). *)
+Definition pc_next (c : conf) (st : state) : option tx * state :=
+  match pick c st with
+  | (None, q) => (None, mkS q None 0)
+  | (Some n, q) =>
+    if is_nil q && is_own (c_own c) n then (Some (TSingle (norm (c_own c) n)), mkS [] None 0)
+    else
+      match next_packet (c_frag c) (c_packets c) (c_own c) (Some n) q (p_tags n) with
+      | (o, k, rest) => (o, mkS rest k 0)
+      end
+  end.
+
 (* ---- the receiving side ---------------------------------------------------- *)
 Record dlv := mkD { d_sid : Z; d_pkt : packet }.   (* session that processes it, the packet *)
 Definition dlv_eqb (a b : dlv) : bool := (d_sid a =? d_sid b) && packet_eqb (d_pkt a) (d_pkt b).
@@ -367,6 +384,47 @@ Definition drain (c : conf) (reg : Z -> bool) (st : state) : list step :=
 
 Definition deliveries (l : list step) : list dlv := flat_map st_dlv l.
 
+(* the client's side of a proxied connection: receive(s, nil, n) on the client's Session *)
+Definition recv_client (sid : Z) (t : tx) : list dlv * Z :=
+  match t with
+  | TSingle p => handle sid p
+  | TMulti c =>
+    if c_dev c =? 0 then ([], 0)
+    else if negb (f_mdev (c_fl c)) && negb (sid =? c_dev c) then ([], E_DEVICE)
+    else if f_len (c_fl c) =? 0 then ([], E_COUNT)
+    else recv_inner sid (Z.to_nat (f_len (c_fl c))) (c_in c)
+  end.
+
+(* the client keeps polling: n more calls of next() *)
+Fixpoint pc_polls (c : conf) (n : nat) (st : state) : list step :=
+  match n with
+  | O => []
+  | S n' =>
+    match pc_next c st with
+    | (None, _) => []
+    | (Some t, st') =>
+      match recv_client (c_own c) t with (d, e) => mkStep t st' d e :: pc_polls c n' st' end
+    end
+  end.
+
+(* polls until nothing is pending, then `extra` more polls *)
+Fixpoint pc_drain_fuel (c : conf) (extra fuel : nat) (st : state) : list step :=
+  match fuel with
+  | O => []
+  | S f =>
+    match pc_next c st with
+    | (None, _) => []
+    | (Some t, st') =>
+      match recv_client (c_own c) t with
+      | (d, e) =>
+        mkStep t st' d e :: (if is_nil (pending st') then pc_polls c extra st' else pc_drain_fuel c extra f st')
+      end
+    end
+  end.
+
+Definition pc_drain (c : conf) (extra : nat) (st : state) : list step :=
+  pc_drain_fuel c extra (S (length (pending st))) st.
+
 (* ---- specification side ------------------------------------------------------ *)
 (* what Session.next removes because the peer abandoned group l: the leading run of packets
    of that group (a lone packet of our own is sent anyway; so is a picked packet of our own that
@@ -461,7 +519,8 @@ Definition ob (id job dev w : Z) (tags : list Z) (plen size cid : Z) (peek : opt
   mkO (Z.testbit w 1) id job dev (fw w) tags plen size cid peek qlen d f err.
 
 Inductive case :=
-| CDrain (c : conf) (reg : list Z) (last : Z) (q : list packet) (out : list obs).
+| CDrain (c : conf) (reg : list Z) (last : Z) (q : list packet) (out : list obs)
+| CProxy (c : conf) (extra : Z) (q : list packet) (out : list obs).   (* a proxyClient queue, polled by its client *)
 
 Definition tx_obs_head (t : tx) : bool * Z * Z * Z * flags * list Z * Z * Z * Z :=
   match t with
@@ -517,4 +576,6 @@ Definition check (c : case) : bool :=
   match c with
   | CDrain cf reg last q out =>
     all2 step_matches (drain cf (fun d => existsb (Z.eqb d) reg) (mkS q None last)) out
+  | CProxy cf extra q out =>
+    all2 step_matches (pc_drain cf (Z.to_nat extra) (mkS q None 0)) out
   end.
